@@ -149,6 +149,44 @@ def voxel_stream(ctx, viol):
                     viol("voxels|index|range", "getVoxelIndex(y=%s) = %d outside [0, %d)" % (y, out[0], ny), dict(y=float(y), ny=ny))
         finally:
             lib.vox_free(v)
+    # ---- voxel index on the periodic grid of a skewed cell, for positions as _compute_neighborlist hands them over (wrapped into the brick,
+    # possibly a rounding error outside it): the row of the position itself (c10_voxel_holds), the edge row when it is just outside
+    # (c10_voxel_edge_low / _high) — never the row of a periodic copy
+    for k in range(ctx.n(30, 200)):
+        by = np.float32(rng.choice([1.75, 1.8125, 2.5, 3.0])); cz = np.float32(rng.choice([1.5, 2.3125, 2.75]))
+        boxm = np.array([[2.09375, 0, 0], [-1.0625 if k % 2 else 0.625, by, 0], [-0.625, 0.875 if k % 3 else -0.5, cz]], dtype=np.float32)
+        edge = np.float32(rng.choice([0.3, 0.35, 0.5, 0.8]))
+        v = lib.vox_new(edge, edge, 0.0, float(by), 0.0, float(cz), boxm.ctypes.data, 1)
+        try:
+            ny = max(1, int(np.floor(by / edge + np.float32(0.5)))); nz = max(1, int(np.floor(cz / edge + np.float32(0.5))))
+            sy = by / np.float32(ny); sz = cz / np.float32(nz)
+            for j in range(6):
+                y = np.float32(rng.uniform(0, float(by))); z = np.float32(rng.uniform(0, float(cz)))
+                if j == 0:
+                    y = np.float32(-rng.choice([1.2e-7, 1e-8, 2.4e-7]))
+                elif j == 1:
+                    z = np.float32(-rng.choice([1.2e-7, 1e-8, 2.4e-7]))
+                elif j == 2:
+                    y = by
+                    for _ in range(rng.randrange(0, 4)):
+                        y = np.nextafter(y, np.float32(0))
+                elif j == 3:
+                    z = cz
+                    for _ in range(rng.randrange(0, 4)):
+                        z = np.nextafter(z, np.float32(0))
+                loc = np.array([0.5, y, z], dtype=np.float32); out = (ctypes.c_int * 2)()
+                lib.vox_index(v, loc.ctypes.data, out)
+                ctx.case(None, ("pindex", k, j)); ctx.count("voxel indices on the periodic grid of a skewed cell")
+                for nm, val, nn, size, L, got in (("y", y, ny, sy, by, out[0]), ("z", z, nz, sz, cz, out[1])):
+                    if val < 0 or val >= L or (L - val) < 4e-7 * L:
+                        want = 0 if val < 0 else nn - 1
+                        if got != want:
+                            viol("voxels|index|face", "getVoxelIndex files a wrapped position with %s = %r (box length %r, %d rows) under row %d; the row next to the position is %d" % (
+                                nm, float(val), float(L), nn, got, want), dict(axis=nm, value=float(val), box=boxm.tolist(), rows=nn))
+                    else:
+                        reqs.append("vox index %d %s %s" % (nn, rat(float(size)), rat(float(val)))); meta.append(("index", None, got, (nn, float(size), float(val))))
+        finally:
+            lib.vox_free(v)
     model = ctx.driver.query(reqs)
     for (kind, name, got, info), m in zip(meta, model):
         if m is None or m == "bad-op":
